@@ -537,7 +537,8 @@ def r2q(R, check=False, tol=100):
     if abs(nm) < tol * _eps:
         return eye()
     else:
-        return np.r_[qs, (math.sqrt(1.0 - qs ** 2) / nm) * kv]
+        # (a trace a few eps above 3, as products of rotations leave it, makes qs exceed 1)
+        return np.r_[qs, (math.sqrt(max(0.0, 1.0 - qs ** 2)) / nm) * kv]
 
 
 def slerp(q0, q1, s, shortest=False):
